@@ -27,6 +27,43 @@ def outcome(F, body, v, arg_local=2):
     return r[0] if r[0] in ("ok", "err") else "stop:%s" % (r[1],)
 
 
+def nonempty_frame_rules(F, ok, rep, P):
+    """audio::Frame splits its sample buffer into chunks of channel_len: every place that fills a frame must have
+    established that the block is not empty (this backs the audited `chunks_exact(channel_len)` sites)"""
+    n = 0
+    for b in F.bodies:
+        if b.promoted is not None:
+            continue
+        for bi, t in b.calls():
+            if not re.search(r"audio::Frame::fill_from_(samples|buf|channels)$", strip_generics(callee_name(t))):
+                continue
+            n += 1
+            sl = slice_with_captures(F, b, t["a"][1])
+            why = None
+            names = [callee_name(c) for c in sl["calls"]]
+            if any(re.search(r"<impl \[T\]>::chunks_exact(_mut)?$", x) for x in names):
+                why = "a chunk of chunks_exact (block size > 0)"
+            if why is None:
+                for c in sl["calls"]:
+                    if re.search(r"Iterator::map$", callee_name(c)):
+                        for cl in c["cls"]:
+                            cb = F.body(cl)
+                            if cb and any(re.search(r"<impl \[T\]>::chunks_exact(_mut)?$", callee_name(x)) for _, x in cb.calls()):
+                                why = "chunks of chunks_exact per channel (block size > 0)"
+            f = ok.path_facts(b).get(bi) or frozenset()
+            if why is None and f is not TOP:
+                for x in f:
+                    if x[0] == "cmp" and x[1] == "Le" and "pcm_frame_size" in str(x[2]) and "len" in str(x[3]):
+                        why = "guarded by len >= pcm_frame_size"
+                    if x[0] == "call-false" and str(x[1]).endswith("is_empty"):
+                        why = "guarded by !is_empty()"
+                    if x[0] == "call-ok" and re.search(r"stream::BlockSize as std::convert::TryFrom::try_from$", str(x[1])):
+                        why = "after BlockSize::try_from(samples / channels) succeeded (0 is rejected)"
+            rep.check(P + ".guard", "%s fills its frame only with a non-empty block" % strip_generics(b.path), why is not None, loc_of(b, t), why or "",
+                      "a frame can be filled from an empty block: Frame::channels()/channels_mut() then panic in chunks_exact(0) instead of the call returning an error")
+    rep.floor(P + ".guard", "frame fills", n, 7)
+
+
 def run(ctx, rep):
     F = ctx.facts()
     spec = ctx.spec("rfc9639.json")["limits"]
@@ -177,6 +214,8 @@ def run(ctx, rep):
         ne = [t for _, t in xb.calls() if (t["f"].get("path") or "") == "std::cmp::PartialEq::ne"]
         rem = [i for i, t in xb.calls() if (t["f"].get("path") or "") == "std::ops::Rem::rem"]
         rep.check("C15.guard", "exact_div tests the divisor against zero before the remainder", len(ne) >= 1 and len(rem) == 1 and all(xb.dominates(i, rem[0]) for i, t in xb.calls() if t in ne), loc_of(xb))
+
+    nonempty_frame_rules(F, ok, rep, "C15")
 
     # ---- C15.panic ----------------------------------------------------------------------------------------------------------
     auditlib.panic_audit(ctx, rep, "C15", ["G_ctor"], floor_sites=240)
